@@ -23,6 +23,7 @@ import (
 	"github.com/gorilla/mux"
 	whttp "github.com/transparency-dev/witness/client/http"
 	ihttp "github.com/transparency-dev/witness/internal/http"
+	"github.com/transparency-dev/witness/internal/verif/kit/asmunits"
 	"github.com/transparency-dev/witness/internal/verif/kit/ev"
 	"github.com/transparency-dev/witness/internal/verif/kit/gen"
 	"github.com/transparency-dev/witness/internal/verif/kit/refnote"
@@ -56,6 +57,9 @@ func main() {
 	dir := run.Scratch()
 	// reads of different logs that overlap in time: each is answered with its own log's bytes
 	run.Floor("overlapping_reads_of_two_logs", 40)
+	// the read API of the assembled service (Main's own router and listener, the bundled client against it)
+	run.Floor("assembled_gets", 300)
+	run.Units("asm_reads", run.Pick(40, 400), 8, func(unit int64, r *rand.Rand) { asmunits.Reads(run, unit, r) })
 	run.Units("cross", run.Pick(48, 480), 16, func(unit int64, r *rand.Rand) { crossLogReads(run, unit, r, dir) })
 	run.Units("hist", run.Pick(800, 20000), 0, func(unit int64, r *rand.Rand) {
 		var router *mux.Router
